@@ -24,6 +24,8 @@ mod semantic_tokens;
 pub mod server;
 pub mod text_document;
 mod uri_file_path_ext;
+#[cfg(feature = "isographlabs_isograph_verif")]
+pub mod verif;
 
 pub async fn start_language_server<TCompilationProfile: CompilationProfile>(
     config: CompilerConfig,
